@@ -41,7 +41,7 @@ def layers(tier):
 
 def floors(tier):
     return {"sign_steps": 400, "verify_expected_ok": 500, "verify_expected_fail": 2000,
-            "atomicity_cases": 100, "generated_keys": 3, "ec_confirmed": 100,
+            "atomicity_cases": 100, "generated_keys": 3, "ec_confirmed": 100, "resign_same_key_id": 40,
             "_distinct_nontrivial": 1000}
 
 
@@ -195,12 +195,28 @@ def shard(ctx):
             e, seed, der, kv = signers[0]
             signers.append((e, seed, der, kv + "b"))
 
+        # state carried in the object: the same entity signs again under the same key id after a
+        # signed field was edited, or after its key was replaced under the same version
+        edits = set()
+        if rng.random() < 0.35:
+            e, seed, der, kv = signers[0]
+            if rng.random() < 0.3:
+                seed = bytes(rng.getrandbits(8) for _ in range(32))
+                der = ed25519.pkcs8_v1(seed)
+            else:
+                edits.add(len(signers))
+            signers.append((e, seed, der, kv))
+            rep.count("resign_same_key_id")
+
         cur = obj
         keys = {}
         if pre:
             keys[pre[0]] = {"ed25519:" + pre[2]: ed25519.public_key(pre[1])}
         ok_chain = True
-        for (e, seed, der, kv) in signers:
+        for step, (e, seed, der, kv) in enumerate(signers):
+            if step in edits:
+                cur = copy.deepcopy(cur)
+                cur["edited_after_signing"] = rng.randint(0, 10 ** 6)
             text = g.render(cur, rng, dups=False) if rng.random() < 0.5 else fmt(cur)
             cmd = {"op": "sign_json", "text": text, "entity": e, "der_b64": b64(der),
                    "key_version": kv}
